@@ -201,6 +201,8 @@ func constOfKind(r *rand.Rand, kind string) *lexer.Token {
 		return tkn(lexer.ItemTime, pickS(r, append(append([]string{}, timeTexts...), instants...)))
 	case "node":
 		return tkn(lexer.ItemNode, pickS(r, nodeTexts))
+	case "nodeC": // nodes whose type+id concatenations coincide
+		return tkn(lexer.ItemNode, pickS(r, []string{`/t<ab>`, `/ta<b>`, `/t<ab>`, `/ta<b>`, `/t<a>`}))
 	case "pred", "tpred":
 		return tkn(lexer.ItemPredicate, pickS(r, predTexts))
 	case "bool":
@@ -222,7 +224,11 @@ func genThemed(r *rand.Rand, binds []string, themes map[string]string, depth int
 		default:
 			rhs = genOperand(r, 1)
 		}
-		return []*lexer.Token{tkn(lexer.ItemBinding, b), cmpOp(r), rhs}
+		op := cmpOp(r)
+		if (rhs.Type == lexer.ItemNode || rhs.Type == lexer.ItemPredicate) && r.Intn(4) != 0 {
+			op = tkn(lexer.ItemEQ, "=") // the only comparison node and predicate constants admit
+		}
+		return []*lexer.Token{tkn(lexer.ItemBinding, b), op, rhs}
 	}
 	roll := r.Intn(10)
 	if depth <= 0 || roll < 4 {
@@ -417,7 +423,7 @@ func genExprCase(r *rand.Rand) exprCase {
 	// rows: the three bindings hold cells whose kinds match the constants often enough
 	kinds := rowKinds(r)
 	if r.Intn(3) != 0 {
-		kinds = []string{[]string{"int", "float", "text", "textD", "intD", "time", "time", "node", "pred", "strD", "str", "bool", "floatN", "intX"}[r.Intn(14)], kinds[1], kinds[2]}
+		kinds = []string{[]string{"int", "float", "text", "textD", "intD", "time", "time", "node", "pred", "strD", "str", "bool", "floatN", "intX", "nodeC", "nodeC"}[r.Intn(16)], kinds[1], kinds[2]}
 		if r.Intn(2) == 0 {
 			kinds[1] = kinds[0]
 		}
